@@ -10,6 +10,7 @@ import (
 	"math/rand"
 	"net"
 	"os"
+	"sort"
 	"sync"
 	"time"
 
@@ -175,12 +176,13 @@ func filterFn(mode byte) func([]byte) bool {
 func runBridge(s *script, r *res.Result) (string, string, int) {
 	br := test.NewBridge()
 	conns := []net.Conn{br.GetConn0(), br.GetConn1()}
-	var m [2]dirModel     // m[d]: direction from endpoint d
-	var exp [2][][]byte   // exp[d]: what endpoint 1-d must read, in order (filled when queue entries are delivered)
-	var got [2][][]byte   // got[e]: what endpoint e read
+	var m [2]dirModel   // m[d]: direction from endpoint d
+	var exp [2][][]byte // exp[d]: what endpoint 1-d must read, in order (filled when queue entries are delivered)
+	var got [2][][]byte // got[e]: what endpoint e read
 	var gmu sync.Mutex
 	var wg sync.WaitGroup
 	rs := s.RSize
+	var rearmed [2]bool
 	if len(rs) == 0 {
 		rs = []int{4096}
 	}
@@ -248,6 +250,12 @@ func runBridge(s *script, r *res.Result) (string, string, int) {
 			br.DropNextNWrites(d, o.N)
 			md.dropN = o.N
 		case "reordernext":
+			if md.reorderN > 0 {
+				// re-armed while the window is still open: the messages held so far stay held and the count starts again;
+				// which order that implies is not defined, so this direction is compared as a multiset from here on
+				rearmed[d] = true
+				r.Count("bridge_reordernext_while_open", 1)
+			}
 			br.ReorderNextNWrites(d, o.N)
 			md.reorderN = o.N
 			r.Count("bridge_reordernext_calls", 1)
@@ -319,6 +327,12 @@ func runBridge(s *script, r *res.Result) (string, string, int) {
 	for dd := 0; dd < 2; dd++ {
 		g := got[1-dd]
 		x := exp[dd]
+		if rearmed[dd] {
+			g = append([][]byte{}, g...)
+			x = append([][]byte{}, x...)
+			sort.Slice(g, func(i, j int) bool { return bytes.Compare(g[i], g[j]) < 0 })
+			sort.Slice(x, func(i, j int) bool { return bytes.Compare(x[i], x[j]) < 0 })
+		}
 		for k := 0; k < len(g) || k < len(x); k++ {
 			if k >= len(x) {
 				return "bridge:extra-message", fmt.Sprintf("direction %d: reader got %d messages, script implies %d (message %d has %d bytes)", dd, len(g), len(x), k, len(g[k])), len(s.Ops)
@@ -351,8 +365,12 @@ func genBridge(rng *rand.Rand) *script {
 		s.RSize = []int{1 + rng.Intn(2500)}
 	}
 	n := 5 + rng.Intn(56)
-	type st struct{ q, dropN, reorderN int; filter int }
+	type st struct {
+		q, dropN, reorderN int
+		filter             int
+	}
 	var m [2]st
+	rearm := false
 	for i := 0; i < n; i++ {
 		d := rng.Intn(2)
 		md := &m[d]
@@ -375,6 +393,12 @@ func genBridge(rng *rand.Rand) *script {
 			nn := 1 + rng.Intn(5)
 			s.Ops = append(s.Ops, op{K: "reordernext", D: d, N: nn})
 			md.reorderN = nn
+		case k < 70 && md.reorderN > 0 && rng.Intn(3) == 0:
+			// ReorderNextNWrites again while the window is open (n = 1 included)
+			nn := 1 + rng.Intn(3)
+			s.Ops = append(s.Ops, op{K: "reordernext", D: d, N: nn})
+			md.reorderN = nn
+			rearm = true
 		case k < 76:
 			s.Ops = append(s.Ops, op{K: "reorder", D: d})
 		case k < 82 && md.reorderN == 0:
@@ -389,6 +413,9 @@ func genBridge(rng *rand.Rand) *script {
 			s.Ops = append(s.Ops, op{K: "dropq", D: d, Off: rng.Intn(3), N: 1 + rng.Intn(2)})
 		}
 	}
+	if rearm {
+		s.RSize = []int{4096} // multiset comparison: no truncation by reader slices
+	}
 	return s
 }
 
@@ -401,7 +428,7 @@ func main() {
 	replay := flag.String("replay", "", "")
 	flag.Parse()
 	r := res.New("C18")
-	r.Rule = "generated scripts; dpipe: Write/Read/Close on both ends against a per-direction FIFO model (reads cut to the slice, whole message consumed, closing one end leaves the other usable); Bridge: writes in both directions interleaved with DropNextNWrites, ReorderNextNWrites (repeated, n=1..5), Drop, Reorder, Filter, Tick, Process against a per-direction {queue, dropN, reorderN, stash, filter} model, reader goroutines on both endpoints log what arrives, after Process the logs must equal the model's delivery lists; distinct = script shapes + reorder batch sizes per direction"
+	r.Rule = "generated scripts; dpipe: Write/Read/Close on both ends against a per-direction FIFO model (reads cut to the slice, whole message consumed, closing one end leaves the other usable); Bridge: writes in both directions interleaved with DropNextNWrites, ReorderNextNWrites (repeated, n=1..5, also called again while its window is still open: that direction is then compared as a multiset), Drop, Reorder, Filter, Tick, Process against a per-direction {queue, dropN, reorderN, stash, filter} model, reader goroutines on both endpoints log what arrives, after Process the logs must equal the model's delivery lists; distinct = script shapes + reorder batch sizes per direction"
 	r.Assumptions = []string{"a reorder-next window is never open together with a filter or a drop-next window in the same direction (whether a stashed message is subject to the filter is not defined by the property); a drop-next window and a filter may be active together: the window counts every write, and a message is delivered iff it is neither in the window nor refused by the filter", "Drop offsets lie inside the queue; Reorder only asserted with >= 2 queued"}
 	run := func(s *script) (k string, d string, at int) {
 		defer func() {
